@@ -47,6 +47,28 @@ Theorem C02_leaf_holds_newest_all :
 Proof. exact leaf_holds_newest_all. Qed.
 Print Assumptions C02_leaf_holds_newest_all.
 
+(** round 7b: the same with NO model state on the right-hand side.  The latest
+    accepted timestamp (reference of the future guard) is threaded on the
+    specification side too: after a notification it becomes
+    max(latest, n_ts) exactly when the notification is tracked ([tracks_ts]: a
+    function of the notification alone) and accepted, i.e. some update unit of
+    it, met in the flat map its predecessors left, is neither refused nor kept
+    out by the four-line rule ([C02History.units_accept]); it moves only after
+    the whole notification ([slatest_next]).  [project_spec], [sfrun],
+    [slatest] take the threshold, the history and the index path only.  Third
+    conjunct: the model's [t_ts] IS the specification's latest.  Witness:
+    [C02History.ex_hist_spec_events]. *)
+Theorem C02_leaf_holds_newest_spec :
+  forall name cfg (H : hist) (q : path),
+    no_panic_history (new_target name cfg) H ->
+    lookup (t_tree (trun (new_target name cfg) H)) q =
+      spec_leaf (cfg_future_threshold cfg) (project_spec (cfg_future_threshold cfg) None [] H q) /\
+    lookup (t_tree (trun (new_target name cfg) H)) q =
+      slookup (sfrun (cfg_future_threshold cfg) None [] H) q /\
+    t_ts (trun (new_target name cfg) H) = slatest (cfg_future_threshold cfg) None [] H.
+Proof. exact leaf_holds_newest_spec. Qed.
+Print Assumptions C02_leaf_holds_newest_spec.
+
 (** the same from any well-formed state (any reachable tree) *)
 Theorem C02_leaf_holds_newest_from :
   forall t (H : hist) (q : path),
@@ -208,3 +230,8 @@ Theorem C02_unlocked_lost_update :
     (sh st, fd st) <> seqrun f op 50 [false; true] /\ sh st = 100.
 Proof. exact unlocked_lost_update. Qed.
 Print Assumptions C02_unlocked_lost_update.
+
+(** round 7b: K_P's "tracked" test is the one of the specification's latest rule *)
+Theorem C02_K_tracks_sound : forall n, stracks n = tracks_ts n.
+Proof. exact K_tracks_sound. Qed.
+Print Assumptions C02_K_tracks_sound.
